@@ -304,7 +304,9 @@ class DecisionMatrixDominanceAccessor(AccessorABC):
     def _dominators_of(self, a, *, strict=False):
         dominance_a = self.dominance(strict=strict)[a]
         if ~dominance_a.any():
-            return np.array([], dtype=str)
+            # an empty array of the labels' own kind: concatenating a string
+            # array would turn integer labels into strings
+            return np.asarray(dominance_a.index)[:0]
 
         dominators = dominance_a.index[dominance_a]
         for dominator in dominators:
